@@ -361,7 +361,9 @@ func (x *Exec) assign(st *State, lhs ast.Expr, v Term) {
 			x.assign(st, l.X, c.define("upd", ns))
 		case KMap:
 			k := x.expr(st, l.Index)
-			x.assert(st, tNot(c.mapNil(base)), "nilmap", x.exprText(l.X), l, "write to non-nil map "+x.exprText(l.X))
+			if x.modelWrite == 0 {
+				x.assert(st, tNot(c.mapNil(base)), "nilmap", x.exprText(l.X), l, "write to non-nil map "+x.exprText(l.X))
+			}
 			x.assign(st, l.X, x.mapStore(base, k, x.coerce(v, base.Sort.Elem)))
 		default:
 			x.unsupported(l, "index assignment on %s", base.Sort.Name)
